@@ -369,6 +369,7 @@ type SimWriter struct {
 	failed   bool
 	shorted  bool
 	accepted int
+	total    int
 }
 
 func newSimWriter() *SimWriter {
@@ -382,6 +383,12 @@ func newSimWriter() *SimWriter {
 
 func (w *SimWriter) Write(p []byte) (int, error) {
 	simrt.YieldPoint(simrt.SiteWrite)
+	w.total += len(p)
+	if w.total > 24<<20 {
+		// a traced parse that writes tens of megabytes is cut off like one that exceeds the stall
+		// guard (formatting deep indentation costs real time that logical steps do not see)
+		panic(simrt.CapExceeded{Steps: int64(w.total)})
+	}
 	switch w.mode {
 	case 1:
 		if w.accepted+len(p) > w.k {
@@ -389,7 +396,7 @@ func (w *SimWriter) Write(p []byte) (int, error) {
 			if n < 0 {
 				n = 0
 			}
-			w.buf.Write(p[:n])
+			w.keep(p[:n])
 			w.accepted += n
 			w.failed = true
 			return n, errInjectedWrite
@@ -397,15 +404,26 @@ func (w *SimWriter) Write(p []byte) (int, error) {
 	case 2:
 		if w.accepted >= w.k && len(p) > 1 {
 			n := len(p) / 2
-			w.buf.Write(p[:n])
+			w.keep(p[:n])
 			w.accepted += n
 			w.shorted = true
 			return n, io.ErrShortWrite
 		}
 	}
-	w.buf.Write(p)
+	w.keep(p)
 	w.accepted += len(p)
 	return len(p), nil
+}
+
+// keep stores at most the first 64 KiB of the trace (a traced parse that backtracks a lot writes
+// hundreds of megabytes; only the byte count matters to the clauses).
+func (w *SimWriter) keep(p []byte) {
+	if room := 1<<16 - w.buf.Len(); room > 0 {
+		if len(p) > room {
+			p = p[:room]
+		}
+		w.buf.Write(p)
+	}
 }
 
 // ---------------------------------------------------------------------------------------------
